@@ -348,7 +348,7 @@ def run(ctx):
     # ---- the schedule dimension: admission, head change and an observer as separate threads on the real chain manager;
     #      and the pool after the miner thread and the networking thread raced
     thr = thrscen.run(ctx, 'C13', 2 if ctx.quick else 3)
-    thr2 = thrscen.run(ctx, 'MN', 1 if ctx.quick else 2, only=['C13:'])
+    thr2 = thrscen.run(ctx, 'MN', 1 if ctx.quick else 2, names=['found-vs-valid-sibling-delivery', 'found-vs-invalid-delivery', 'found-vs-transaction-delivery'], only=['C13:'])
     ctx.cov['thread_schedules'] = {'chain_manager': thr, 'miner_vs_networking': thr2}
     ctx.cov.update({
         'states': stats['states'], 'transitions': stats['transitions'], 'traces_validated_against_impl': stats['transitions'],
